@@ -158,6 +158,7 @@ func c17Request(r *rng, big bool) {
 			bits = []int{0, oRHF | oTB, oRHF | oTB | oWD, oWR | oWD | oWO, oRHF}[r.intn(5)]
 		}
 		bodyKind := []int{0, 1, 2, 2, 2}[r.intn(5)]
+		g.goUnsafeEsc = r.chance(25)
 		density := []int{15, 40, 75}[r.intn(3)]
 		var pops []hPop
 		for _, s := range g.structs {
@@ -197,6 +198,9 @@ func c17Request(r *rng, big bool) {
 		}
 		uriPath := []string{"/", "/p/a", "/items/7"}[r.intn(3)]
 		for impl := 0; impl < 2; impl++ {
+			if impl == 1 && g.goUnsafeEsc {
+				continue
+			}
 			req, err := buildRequest(pops, bodyKind, jbody, uriPath)
 			if err != nil {
 				die("C17: request: %v", err)
